@@ -81,26 +81,33 @@ def model_vals(res, names):
 
 def ob_op(ctx, oid, name, ty, kinds, spec, alias):
     w, alg = setup(ctx); fn = find(ctx, name, ty)
-    it = Interp(w)
-    ops = []; specv = []; objs = []
-    res = Obj(24, 'result', 8)
-    for idx, k in enumerate(kinds[1:]):
-        nm = 'ab'[idx]
-        shared = None
-        if alias == 'a=b' and idx == 1 and kinds[1] == 'e' and k == 'e': shared = objs[0]
-        a, sv, o = mk_operand(alg, k, nm, shared); ops.append(a); specv.append(sv); objs.append(o)
-    if alias == 'out=a' or alias == 'all': res = [o for o, k in zip(objs, kinds[1:]) if k == 'e'][0]
-    if alias == 'out=b': res = [o for o, k in zip(objs, kinds[1:]) if k == 'e'][-1]
-    specz = []
-    for e in spec(*[[alg.toz3(x) for x in sv] if isinstance(sv, list) else alg.toz3(sv) for sv in specv]): specz.append(e)
-    try: it.call(fn, [Ptr(res, 0)] + ops)
-    except Violation as e: return viol('%s/%s' % (oid, e.kind), 'Goldilocks3::%s (%s): %s' % (name, alias, e.msg), replay=dict(event=str(e)))
-    outs = [fmode.cls_of(res.cells.get(i)) if res.cells.get(i) is not None else None for i in range(3)]
-    if any(o is None for o in outs): return viol('%s/unwritten' % oid, 'result coefficient not written', replay=dict(event='unwritten'))
-    r = congr_query(alg, outs, specz)
-    if r.status == 'unsat': return ok('3 coefficient congruences; %s' % r.variant, sample=dict(op=oid, alias=alias, type=ty))
-    if r.status == 'sat': return confirm_op(ctx, oid, name, ty, kinds, spec, alias, r.model)
-    return inconc(r.info)
+    fmode.install_predicates(w, alg)          # isZero/isOne/equal on field words fork the run on the residue-class condition
+    def go(it):
+        ops = []; specv = []; objs = []
+        res = Obj(24, 'result', 8)
+        for idx, k in enumerate(kinds[1:]):
+            nm = 'ab'[idx]
+            shared = None
+            if alias == 'a=b' and idx == 1 and kinds[1] == 'e' and k == 'e': shared = objs[0]
+            a, sv, o = mk_operand(alg, k, nm, shared); ops.append(a); specv.append(sv); objs.append(o)
+        if alias == 'out=a' or alias == 'all': res = [o for o, k in zip(objs, kinds[1:]) if k == 'e'][0]
+        if alias == 'out=b': res = [o for o, k in zip(objs, kinds[1:]) if k == 'e'][-1]
+        specz = []
+        for e in spec(*[[alg.toz3(x) for x in sv] if isinstance(sv, list) else alg.toz3(sv) for sv in specv]): specz.append(e)
+        it.call(fn, [Ptr(res, 0)] + ops)
+        outs = [fmode.cls_of(res.cells.get(i)) if res.cells.get(i) is not None else None for i in range(3)]
+        return outs, specz
+    paths = explore(w, go, max_paths=64); variants = []
+    for p in paths:
+        if p.status == 'violation': e = p.result; return viol('%s/%s' % (oid, e.kind), 'Goldilocks3::%s (%s): %s' % (name, alias, e.msg), replay=dict(event=str(e)))
+        if p.status != 'ok': return inconc('path ends in %s: %s' % (p.status, p.result))
+        outs, specz = p.result
+        if any(o is None for o in outs): return viol('%s/unwritten' % oid, 'result coefficient not written', replay=dict(event='unwritten'))
+        r = congr_query(alg, outs, specz, assumptions=list(p.pc))
+        if r.status == 'sat': return confirm_op(ctx, oid, name, ty, kinds, spec, alias, r.model)
+        if r.status != 'unsat': return inconc(r.info)
+        variants.append(r.variant)
+    return ok('%d path(s), 3 coefficient congruences each; %s' % (len(paths), variants[0] if variants else ''), sample=dict(op=oid, alias=alias, type=ty, paths=len(paths)))
 
 def native_op(ctx, fn, kinds, alias, vals):
     """vals: per operand either [3 ints] or int"""
@@ -158,7 +165,10 @@ def ob_inv(ctx, form, alias):
     a0, a1, a2 = az
     norm = a0*a0*a0 + a1*a1*a1 + a2*a2*a2 + 2*a0*a0*a2 - a0*a1*a1 + a0*a2*a2 - a1*a2*a2 - 3*a0*a1*a2
     r0 = smt.prove(lambda tr: z3.Or((w.inv_arg - norm) % P == 0, (w.inv_arg + norm) % P == 0), timeout=60, variants=[dict(limb_min=0, abstract=False, logic=None, share=1.0)])
-    if r0.status != 'unsat': return inconc('argument of the base inverse is not ±norm(a): %s' % r0.status) if r0.status != 'sat' else viol('inv/norm', 'value inverted by Goldilocks3::inv is not the norm of the element (model %s)' % r0.model, replay=dict(event='norm'))
+    if r0.status != 'unsat':
+        # the algorithm does not invert ±norm(a): not a violation in itself (another algorithm may be correct); it is one only if a concrete call misbehaves
+        cands = [[r0.model.get('a%d' % i, 0) % 2**64 for i in range(3)]] if r0.status == 'sat' else []
+        return native_inv_check(ctx, fn, alias, form, cands, 'argument of the base inverse is not ±norm(a) (%s)' % r0.status)
     r = congr_query(alg, prod, [z3.IntVal(1), z3.IntVal(0), z3.IntVal(0)], assumptions=asm)
     if r.status == 'unsat': return ok('a·inv(a) ≡ (1,0,0) whenever norm(a) ≢ 0; inverted value = ±norm(a)', sample=dict(op='inv', form=form, alias=alias))
     if r.status == 'sat':
@@ -297,7 +307,7 @@ def ob_batchinv(ctx, n):
     res = Obj(24 * n, 'res', 8)
     try: it.call(fn, [Ptr(res, 0), Ptr(src, 0), n])
     except Violation as e: return viol('batchInverse/%s' % e.kind, 'batchInverse(size=%d): %s' % (n, e.msg), replay=dict(event=str(e)))
-    if len(invs) != 1: return viol('batchInverse/inverses', 'batchInverse(size=%d) performed %d inversions' % (n, len(invs)), replay=dict(event='count'))
+    if len(invs) != 1: return native_batchinv_check(ctx, fn, n, 'batchInverse(size=%d) performs %d inversions (the ring-level argument covers the single-inversion scheme only)' % (n, len(invs)))
     X, I_ = invs[0]; prod = 1
     for x in xs: prod = prod * x
     s = z3.Solver(); s.set('timeout', 60000)
@@ -305,8 +315,52 @@ def ob_batchinv(ctx, n):
     bad = [X != prod] + [rd(Ptr(res, 24 * i)) * xs[i] != I_ * prod for i in range(n)]
     s.add(z3.Or(bad)); r = smt.check(s)
     if r == z3.unsat: return ok('size %d: one inversion of Π src; res[i]·src[i] = I·Π src for all i (ring identities); extents exact' % n, sample=dict(op='batchInverse', size=n))
-    if r == z3.sat: return viol('batchInverse', 'batchInverse(size=%d) is not element-wise inversion: %s' % (n, s.model()), replay=dict(event='batchInverse', size=n))
+    if r == z3.sat: return native_batchinv_check(ctx, fn, n, 'batchInverse(size=%d): ring identities res[i]·src[i] = I·Π src fail at the abstract level' % n)
     return inconc('batchInverse identity unknown')
+
+def _special_elems(rng):
+    k = rng.choice([1, 2, 5, 7, P - 1, 2**32, rng.getrandbits(64)])
+    return [[k % 2**64, 0, 0], [0, k % 2**64, 0], [0, 0, 1], [1, 0, 0], [P + 1, P, 0], [rng.getrandbits(64) for _ in range(3)], [P - 1, P - 1, P - 1], [2**64 - 1, 1, 2**63]]
+def native_inv(ctx, vals):
+    f = core.nfn(ctx.bdir, CFG, find(ctx, 'inv', 'void (%s &, %s &)' % (E3, E3))); U = ctypes.c_uint64
+    def body():
+        ab = (U * 3)(*vals); rb = (U * 3)(); f(rb, ab); return [rb[i] for i in range(3)]
+    r = core.forked(body, timeout=30)
+    return r[1] if r[0] == 'ok' else None
+def native_inv_check(ctx, fn, alias, form, cands, why):
+    """a structural expectation of the checker failed; decide by concrete native calls: violation only if a·inv(a) != 1 is observed"""
+    rng = ctx.rng('C09inv'); f = core.nfn(ctx.bdir, CFG, fn); U = ctypes.c_uint64
+    for vals in cands + _special_elems(rng) + [[rng.getrandbits(64) for _ in range(3)] for _ in range(40)]:
+        if all(v % P == 0 for v in vals): continue
+        def body(vals=vals):
+            ab = (U * 3)(*vals); rb = ab if alias == 'out=a' else (U * 3)(); f(rb, ab); return [rb[i] for i in range(3)]
+        r = core.forked(body, timeout=30)
+        got = f3mul([v % P for v in vals], [x % P for x in r[1]]) if r[0] == 'ok' else None
+        if got is None or [g % P for g in got] != [1, 0, 0]:
+            return viol('inv', 'Goldilocks3::inv(%s): %s; native call: %s, a·inv(a) = %s' % (vals, why, r, got), replay=dict(oid='inv', vals=vals, form=form, alias=alias))
+    return inconc('%s; no concrete call misbehaves' % why)
+def native_batchinv_check(ctx, fn, n, why):
+    rng = ctx.rng('C09binv%d' % n); f = core.nfn(ctx.bdir, CFG, fn); U = ctypes.c_uint64
+    for trial in range(60):
+        sp = _special_elems(rng)
+        src = [rng.choice(sp) if rng.random() < 0.5 else [rng.getrandbits(64) for _ in range(3)] for _ in range(n)]
+        if trial % 3 == 1 and n >= 2:      # pairs whose product lies in the base field: x, k·x^-1
+            x = [rng.getrandbits(64) for _ in range(3)]; xi = native_inv(ctx, x)
+            if xi is not None:
+                k = rng.choice([1, 3, 7]); src[0] = x; src[1] = [(k * v) % P for v in xi]
+        if any(all(v % P == 0 for v in e) for e in src): continue
+        for inplace in (False, True):
+            def body():
+                sb = (U * (3 * n))(*[v for e in src for v in e]); rb = sb if inplace else (U * (3 * n))(); f(rb, sb, U(n)); return [rb[i] for i in range(3 * n)]
+            r = core.forked(body, timeout=30)
+            bad = None
+            if r[0] != 'ok': bad = 'native call ended with %s %s' % r
+            else:
+                for i in range(n):
+                    got = f3mul([v % P for v in src[i]], [x % P for x in r[1][3 * i:3 * i + 3]])
+                    if [g % P for g in got] != [1, 0, 0]: bad = 'res[%d]·src[%d] = %s' % (i, i, [g % P for g in got]); break
+            if bad: return viol('batchInverse', '%s; native batchInverse(%s, size=%d%s): %s' % (why, src, n, ', in place' if inplace else '', bad), replay=dict(event='batchInverse', size=n, src=src, inplace=inplace))
+    return inconc('%s; no concrete call misbehaves' % why)
 
 def obligations(ctx):
     obs = []
@@ -317,7 +371,12 @@ def obligations(ctx):
     for al in ('distinct', 'out=a'): obs.append(Ob('div/%s' % al, ob_div, (al,)))
     obs.append(Ob('mulScalar', ob_mulscalar)); obs.append(Ob('isOne', ob_isone))
     obs.append(Ob('fromU64', ob_conv, ('fromU64',))); obs.append(Ob('toU64', ob_conv, ('toU64',)))
-    for n in range(1, (6 if ctx.thorough else 4) + 1): obs.append(Ob('batchInverse/%d' % n, ob_batchinv, (n,)))
+    sizes = set(range(1, (6 if ctx.thorough else 4) + 1))
+    # size thresholds present in the code (constants batchInverse compares with): both sides of each, and the first odd/even sizes after doubling
+    w = core.world(ctx.bdir, MODS)
+    for c in kern.compare_constants(w, '@_ZN11Goldilocks312batchInverseEPA3_N10Goldilocks7ElementES3_m', lo=5, hi=4096)[:3]:
+        sizes |= {c - 1, c, c + 1, 2 * c + 1, 2 * c + 2}
+    for n in sorted(sizes): obs.append(Ob('batchInverse/%d' % n, ob_batchinv, (n,)))
     from . import C03
     return obs + C03.contract_obs(ctx)
 
